@@ -246,6 +246,26 @@ func checkC09(c *Ctx) *report.Result {
 						}
 						okBank = okBank && stored
 						detail += fmt.Sprintf("; written byte stored bit for bit: %v", stored)
+						// ... unconditionally: with the control registers written as above the store depends on nothing but the
+						// address and the value (a path that drops the write, or sends it to the clock, makes it depend on
+						// the register value that selects the path)
+						for cell, v := range ev.Stores {
+							if !strings.Contains(cell, "[") {
+								continue
+							}
+							for _, d := range ai.DepsOf(v) {
+								if d != ev.ValSym && d != ev.AddrSym {
+									okBank = false
+									detail += fmt.Sprintf("; the store is conditional on or mixed with %s", it.SymName(d))
+								}
+							}
+						}
+					} else {
+						same, nl, got := c.readReturnsLoadedByteFrom(st, 0xA000, 0xBFFF, nil)
+						if !same || nl != 1 {
+							okBank = false
+							detail += fmt.Sprintf("; the read returns %s, not the stored byte on every path (element loads %d)", got, nl)
+						}
 					}
 					r.Ob("R-bank", n == 2 && okOff && okBank && len(ev.Panics) == 0, fmt.Sprintf("%s, %s: enabled %s", sz, cs.tag, kind), hpos(ev), detail)
 				}
@@ -645,8 +665,10 @@ func checkC10(c *Ctx) *report.Result {
 		r.Fail("unresolved", "T-read", "MBC3 enable flag / register select", "", fmt.Sprintf("enable %q select %q", en, ramb))
 		return r
 	}
+	// (the RAM is left as whatever the constructor may give an MBC3 cartridge - every size, or none on the boards
+	// without RAM chips: the clock registers answer the same on all of them)
 	sel := func(reg int, more func(*ai.State)) func(*ai.State) {
-		return env.setup(8, 1, func(st *ai.State) {
+		return env.setup(8, 0, func(st *ai.State) {
 			st.SetCell(env.ct.Obj, en, ai.NewConstBool(true))
 			st.SetCell(env.ct.Obj, ramb, ai.NewConstInt(c.widthOf(env.ct.Obj, ramb), false, int64(reg)))
 			if more != nil {
